@@ -1500,4 +1500,100 @@ def c06(stream, scen=None):
     return wit
 
 
-MONITORS['C06'] = [c06, c06_source]
+def c06_oneshot(stream, scen=None):
+    """a one-shot offset is kept until the next cycle of its device STARTS, whatever happens in between (the first
+    run call and its initialisation included), and it counts for that cycle:
+    (1) the offset of a source / handler / processor / sink changes from a non-zero value only in an event in which
+        that device starts a cycle (it receives a part; a source supplies one or is started), or by an explicit
+        offset operation / callback of the scenario;
+    (2) a source supplies its next part no sooner than max(0, cycle time + one-shot offset) -- both as they were just
+        before the cycle started -- after the start of that cycle (the start of the simulation for the first one)."""
+    wit = []
+    script_off = {}      # script -> devices whose offset it changes
+    fincb = set()
+    initial = set()      # sources that exist before the first run
+    di = 0
+    seen_run = False
+    for l in scen or []:
+        if l[0] == 'run':
+            seen_run = True
+        if l[0] == 'script' and len(l) > 3 and l[2] == 'offset':
+            script_off.setdefault(int(l[1]), set()).add(int(l[3]))
+        if l[:2] == ['asset', 'dev']:
+            if any(t.startswith('fincb=') for t in l[3:]):
+                fincb.add(di)
+            if l[2] == 'source' and not seen_run:
+                initial.add(di)
+            di += 1
+        elif l[:2] == ['asset', 'group']:
+            di += 2
+    fs = frames(stream)
+    prev = None
+    after_runbegin = False
+    first_init_done = False
+    start = {}           # source -> (start of the current cycle, cycle time in effect)
+    for i, f in enumerate(fs):
+        if f.trigger[0] == 'abort':
+            return wit
+        if f.trigger[0] == 'runbegin':
+            after_runbegin = True
+            continue
+        if f.now is None or f.trigger[0] == 'ran':
+            continue
+        init_frame = after_runbegin and f.trigger[0] == 'ext'
+        first_init = init_frame and not first_init_done
+        after_runbegin = False
+        devs = devs_of(f.state)
+        pd = devs_of(prev.state) if prev is not None else {}
+        recv = set()
+        supplied = {}
+        produced = set()
+        for rec in f.recs:
+            t = rec.split()
+            if t[0] == 'received_part':
+                recv.add(int(t[1]))
+            elif t[0] == 'supplied_new_part':
+                supplied[int(t[1])] = num(t[2])
+            elif t[0] == 'produced_part':
+                produced.add(int(t[1]))
+        by_script = set()
+        if f.trigger[0] == 'ev' and f.trigger[1]['act'] % 16 == 1:
+            by_script = script_off.get(f.trigger[1]['act'] // 16, set())
+        if f.trigger[0] == 'ev' or init_frame:
+            for x, d in devs.items():
+                if d.kind not in ('source', 'handler', 'processor', 'sink') or x not in pd:
+                    continue
+                try:
+                    old, new = num(pd[x].f.get('off', '0')), num(d.f.get('off', '0'))
+                except ValueError:
+                    continue
+                if old == 0 or old == new or x in by_script:
+                    continue
+                started = x in recv or x in supplied or (d.kind == 'source' and first_init and x in initial)
+                if not started and not (x in fincb and x in produced):
+                    wit.append(f'frame {i} (t={f.now}): {d.kind} {x} lost its one-shot cycle-time offset ({pd[x].f.get("off")} -> '
+                               f'{d.f.get("off")}) without starting a cycle')
+        for x, d in devs.items():
+            if d.kind != 'source':
+                continue
+            o = pd.get(x, d)
+            try:
+                ceff = max(0, num(o.f.get('cyc', '0')) + (num(o.f.get('off', '0')) if x in pd else 0))
+            except ValueError:
+                continue
+            if x in supplied:
+                if x in start and supplied[x] < start[x][0] + start[x][1] and not close(supplied[x], start[x][0] + start[x][1]):
+                    wit.append(f'frame {i}: source {x} supplied a part at {supplied[x]}; its cycle started at {start[x][0]} with cycle '
+                               f'time + one-shot offset {start[x][1]}')
+                start[x] = (supplied[x], ceff)
+            elif first_init and x in initial:
+                start[x] = (f.now, ceff)
+        if init_frame:
+            first_init_done = True
+        prev = f
+        if len(wit) > 4:
+            break
+    return wit
+
+
+MONITORS['C06'] = [c06, c06_source, c06_oneshot]
